@@ -228,7 +228,7 @@ impl Scenario for C05 {
             components_stubbed: &["TCP socket (SimNet pipe)", "peer (byte feeder / collector)"],
             assumptions: &["TCP semantics: bytes arrive in order, unmodified, until close/reset", "allocation size measured per thread by a counting global allocator"],
             fault_prefixes: &["fault.", "net."],
-            expected_probes: &["probe.c05.eof_in_prefix", "probe.c05.eof_in_body", "probe.c05.eof_between_frames", "probe.c05.overcap_refused", "probe.c05.zero_len_frame", "probe.c05.len_65536", "probe.c05.handover_coalesced", "probe.c05.frame_above_16_mib", "probe.c05.idle_beyond_read_timeout", "probe.c05.prefix_in_two_pieces", "probe.c05.mode_switched_after_construction", "probe.c05.large_frame_that_is_no_message"],
+            expected_probes: &["probe.c05.eof_in_prefix", "probe.c05.eof_in_body", "probe.c05.eof_between_frames", "probe.c05.overcap_refused", "probe.c05.zero_len_frame", "probe.c05.len_65536", "probe.c05.handover_coalesced", "probe.c05.frame_above_16_mib", "probe.c05.idle_beyond_read_timeout", "probe.c05.prefix_in_two_pieces", "probe.c05.mode_switched_after_construction", "probe.c05.large_frame_that_is_no_message", "probe.c05.node_loop_without_timeout"],
         }
     }
 }
@@ -613,10 +613,15 @@ async fn nodeloop(w: &Arc<World>, p: &Plan) {
         if overcap { Some(we) } else { None }
     };
     let w3 = w.clone();
+    // the loop's read timeout: ten minutes, or none at all
+    let node_timeout = if p.fill_seed & 4 != 0 { Duration::MAX } else { Duration::from_secs(600) };
+    if node_timeout == Duration::MAX {
+        w.stat("probe.c05.node_loop_without_timeout");
+    }
     let reader = async move {
         let mut half = edp_client::verif::OwnedReadHalf::from_box(Box::new(fre));
         for (i, item) in expect.iter().enumerate() {
-            let r = edp_client::Connection::receive_message_from_read_half(&mut half, Duration::from_secs(600)).await;
+            let r = edp_client::Connection::receive_message_from_read_half(&mut half, node_timeout).await;
             let Some((ctl, msg)) = item else {
                 match r {
                     Ok(_) => {
@@ -646,7 +651,7 @@ async fn nodeloop(w: &Arc<World>, p: &Plan) {
             }
         }
         reset_max_request();
-        let r = tokio::time::timeout(Duration::from_secs(1800), edp_client::Connection::receive_message_from_read_half(&mut half, Duration::from_secs(600))).await;
+        let r = tokio::time::timeout(Duration::from_secs(1800), edp_client::Connection::receive_message_from_read_half(&mut half, node_timeout)).await;
         match r {
             Ok(Err(_)) => {
                 if overcap {
